@@ -8,6 +8,29 @@ package main
 type Model struct {
 	vals map[string]uint64
 	memo map[*Term]evalRes
+	apps map[uint64][]appVal // values of uninterpreted applications fetched from the solver model
+}
+
+type appVal struct {
+	t *Term
+	v uint64
+}
+
+func (m *Model) clone() *Model {
+	c := &Model{vals: make(map[string]uint64, len(m.vals)+1), memo: map[*Term]evalRes{}, apps: m.apps}
+	for k, v := range m.vals {
+		c.vals[k] = v
+	}
+	return c
+}
+
+func (m *Model) appValue(t *Term) (uint64, bool) {
+	for _, a := range m.apps[t.Hash()] {
+		if deepSame(a.t, t) {
+			return a.v, true
+		}
+	}
+	return 0, false
 }
 
 type evalRes struct {
@@ -48,6 +71,9 @@ func maskOrBool(s Sort) uint64 {
 }
 
 func (m *Model) eval1(t *Term) (uint64, bool) {
+	if t.op == OApp && t.sort != SStr && t.sort <= 64 {
+		return m.appValue(t)
+	}
 	if t.sort > 64 || t.sort == SStr || t.op == OApp {
 		return 0, false
 	}
